@@ -99,6 +99,23 @@ func TestCipherSuites(t *testing.T) {
 				malformed = "authentication algorithm byte has tag bits set"
 			}
 		}
+		if rapid.Bool().Draw(t, "earlierDiscovery") {
+			// the connection has already enumerated another (here: longer or
+			// shorter, possibly failed) list; this enumeration starts afresh
+			var earlier []byte
+			for i := rapid.IntRange(1, 14).Draw(t, "earlierRecords"); i > 0; i-- {
+				earlier = append(earlier, (&ref.SuiteRecord{ID: byte(i), Auth: 1, Integs: []byte{1}, Confs: []byte{1}}).Bytes()...)
+			}
+			if rapid.IntRange(0, 3).Draw(t, "earlierMalformed") == 0 {
+				earlier = earlier[:len(earlier)-2]
+			}
+			w.BMC.SuiteRecords = earlier
+			ctx0, cancel0 := w.Ctx(200)
+			bmc.RetrieveSupportedCipherSuites(ctx0, w.T)
+			cancel0()
+			w.BMC.Log, w.BMC.Data.CipherReqs = w.BMC.Log[:0], 0
+			ev.Label("cs:second-enumeration-on-the-connection")
+		}
 		w.BMC.SuiteRecords = wire
 		ctx, cancel := w.Ctx(200)
 		defer cancel()
@@ -316,7 +333,7 @@ func TestDCMIGrid(t *testing.T) {
 }
 
 func TestCoverage(t *testing.T) {
-	need := []string{"cs:walk-bounded", "dcmi-grid-complete", "dcmi:multi-page:mode0", "dcmi:multi-page:mode1", "dcmi:multi-page:mode2", "cs:exact-multiple-of-16", "cs:chunks=1", "cs:chunks=2", "cs:chunks=3", "cs:chunks=5",
+	need := []string{"cs:second-enumeration-on-the-connection", "cs:walk-bounded", "dcmi-grid-complete", "dcmi:multi-page:mode0", "dcmi:multi-page:mode1", "dcmi:multi-page:mode2", "cs:exact-multiple-of-16", "cs:chunks=1", "cs:chunks=2", "cs:chunks=3", "cs:chunks=5",
 		"cs:malformed:last record cut short", "cs:malformed:first byte is not a record start"}
 	ev.RequireLabels(t, 1, need...)
 }
